@@ -41,6 +41,7 @@ META = {
         " Repeated faults (mc/fault_overlap.py::repeats): the same fault k times in a row (k in 3..6; thorough up to 10) on one worker, then healthy messages - a counter, pool, budget or throttle inside the worker must not change what happens at the k-th occurrence."
         " Message kinds 'l' / 't': labels as a kicker sends them (prepared text + labels_types), fully typed and with un-typed labels added later by a client middleware."
         " Finite wait_tasks_timeout (0, 0.3; thorough 0.1 too) with a stop request at any point: a taken message is either still in processing when listen() returns or has been executed."
+        " max_async_tasks 0 and -1 (no limit, like None)."
     ),
     "assumptions": [
         "asyncio semantics as implemented by BaseEventLoop (the loop is a subclass; only clock/selector are replaced)",
@@ -95,6 +96,10 @@ def scenarios(tier: str) -> List[Dict[str, Any]]:
     for w in l2_words:
         for (a, p, n) in l2_cfg:
             out.append({"A": a, "P": p, "N": n, "stream": "infinite", "stop": True, "msgs": _msgs(w), "level": 2})
+    # max_async_tasks = 0 (and a negative value) means "no limit", like None
+    for w in ("v", "vv", "vvv"):
+        for a in (0, -1):
+            out.append({"A": a, "P": 0, "N": None, "stream": "infinite", "stop": True, "msgs": _msgs(w), "level": 0})
     # a finite wait_tasks_timeout (0 = do not wait at all): a message taken around the stop request is either
     # still in processing when listen() returns or has been executed - never ended without its function running
     for w in ("v", "vv", "vvv", "av", "sv", "lv"):
